@@ -618,6 +618,22 @@ MANIFEST_TEXT = {
                 text="Archives from random and directed histories (shared combined blocks, incomplete bands, garbage) x delete sets x "
                      "{dry, real, crash at every verb, every failing read/list/metadata verb}; TLC judges per-verb (gc removes only requested "
                      "bands, unreferenced blocks, its lock) and at return (exactly the requested bands gone, present blocks = referenced)."),
+    "C06": dict(ref="DESIGN.md 7 C06", note=TRUST + " The scheduler serialises storage verbs of the two actors (one verb at a time), i.e. the storage is sequentially consistent.",
+                text="Interlock.tla models backup and gc/delete at storage-verb granularity; TLC explores every interleaving (no preemption bound) "
+                     "and proves NoLoss for the protocol the code follows (and refutes it for the protocol without the second lock check). On the "
+                     "real code the two operations run on separate threads under a deterministic scheduler; schedules with up to 2-3 preemptions "
+                     "placed at verbs on shared keys are enumerated/sampled over archives whose garbage content reappears in the new source; every "
+                     "merged trace is validated by TLC (no complete version dangles at quiescence, every complete version restores)."),
+    "C07": dict(ref="DESIGN.md 7 C07", note=TRUST,
+                text="Every mutating verb of every real trace is judged against the write-once contract of Storage.tla (create-new must refuse a "
+                     "non-empty file; backup never overwrites, removes, or reuses a band id; gc removes only requested bands, unreferenced blocks, "
+                     "its lock; readers never mutate). The race of two backups is model-checked in Interlock.tla and replayed under the scheduler: "
+                     "one winner per band, the loser never writes under the winner's head."),
+    "C08": dict(ref="DESIGN.md 7 C08", note=TRUST + " Archives for this check are written by the harness's own encoder.",
+                text="MC_Stitch.tla: TLC enumerates ALL arrangements of up to 3 band slots (absent / head-less / incomplete / complete, ids with "
+                     "gaps) x all hunk layouts of subsets of an order-exercising path alphabet and proves StitchOf equal to a declarative statement "
+                     "of the rule, strictly increasing, duplicate-free, with correct provenance. The arrangements are written as real archives and "
+                     "the real iter_entries (every N, subtree and exclusion filters) is compared with Listing() by TLC."),
     "C13": dict(ref="DESIGN.md 7 C13", note=TRUST,
                 text="doc/format.md is the predicate FormatViol in spec/Format.tla; TLC evaluates it after every mutating storage verb of "
                      "every trace (histories x settings hitting hunk and block boundaries, interrupted backups), on payloads decoded by the "
